@@ -16,6 +16,8 @@ package main
 
 import (
 	"bytes"
+	"go/constant"
+	"math/big"
 	"encoding/json"
 	"fmt"
 	"go/types"
@@ -75,6 +77,8 @@ func basicKind(t types.Type) string {
 		return "byte"
 	case b.Info()&types.IsInteger != 0:
 		return "int"
+	case b.Kind() == types.Float64:
+		return "float"
 	}
 	return ""
 }
@@ -84,8 +88,9 @@ func isErrorType(t types.Type) bool { return t.String() == "error" }
 // witnessTestSource generates the in-package test for the functions of one package.
 func (e *Engine) witnessTestSource(pkg *ssa.Package, specs []WitnessSpec, seed int64, tier string) (string, map[string]string) {
 	unsupported := map[string]string{}
+	needStrconv := false
 	var b strings.Builder
-	fmt.Fprintf(&b, "package %s\n\nimport (\n\t\"encoding/json\"\n\t\"fmt\"\n\t\"math/rand\"\n\t\"testing\"\n)\n\n", pkg.Pkg.Name())
+	fmt.Fprintf(&b, "package %s\n\nimport (\n\t\"encoding/json\"\n\t\"fmt\"\n\t\"math/rand\"\n\t\"testing\"\nSTRCONVIMPORT)\n\n", pkg.Pkg.Name())
 	b.WriteString(`func zzwStr(r *rand.Rand, alpha string, max int, i int) string {
 	n := r.Intn(max + 1)
 	if i < 2 {
@@ -188,6 +193,10 @@ func TestZZGovcWitness(t *testing.T) {
 				emitRes = append(emitRes, rn)
 			case "rune", "byte", "int":
 				emitRes = append(emitRes, "int("+rn+")")
+			case "float":
+				// exact: the shortest text that parses back to the same float64
+				emitRes = append(emitRes, "map[string]string{\"float\": strconv.FormatFloat(float64("+rn+"), 'g', -1, 64)}")
+				needStrconv = true
 			default:
 				if isErrorType(rs.At(i).Type()) {
 					emitRes = append(emitRes, "zzwErr("+rn+")")
@@ -210,7 +219,13 @@ func TestZZGovcWitness(t *testing.T) {
 		fmt.Fprintf(&b, "\t\t\t\tzzwEmit(%q, []interface{}{%s}, []interface{}{%s}, \"\")\n\t\t\t}()\n\t\t}\n\t}\n", ws.Func, strings.Join(emitArgs, ", "), strings.Join(emitRes, ", "))
 	}
 	b.WriteString("}\n")
-	return b.String(), unsupported
+	src := b.String()
+	if needStrconv {
+		src = strings.Replace(src, "STRCONVIMPORT", "\t\"strconv\"\n", 1)
+	} else {
+		src = strings.Replace(src, "STRCONVIMPORT", "", 1)
+	}
+	return src, unsupported
 }
 
 func (e *Engine) fullKey(key string) string {
@@ -348,6 +363,17 @@ func (e *Engine) witnessEnv(fn *ssa.Function, con *FuncContract, s witnessSample
 			nv, _ := v.(json.Number)
 			i, _ := nv.Int64()
 			return Sc{smtInt(i), SInt}, fmt.Sprint(i)
+		}
+		if basicKind(t) == "float" {
+			txt := ""
+			if m, ok := v.(map[string]interface{}); ok {
+				txt, _ = m["float"].(string)
+			}
+			r, ok := new(big.Rat).SetString(txt)
+			if !ok {
+				return nil, "?"
+			}
+			return Sc{ratTerm(constant.Make(r)), SReal}, txt
 		}
 		if isErrorType(t) {
 			if v == nil {
